@@ -83,9 +83,9 @@ PROPS = {
      "C02": dict(
         prop_files=["PropC02.v"], components=["ws", "rs"],
         level_text="Writer side: theorem C02_writer — for every option list the Writer accepts (modern frames), every split of the input into Write calls with Flush calls anywhere, every call succeeds, the Writer ends closed and the emitted bytes are accepted by the strict frame specification with exactly the input as content; C02_readfrom: a single ReadFrom emits the same frame. C02_roundtrip: those bytes are decoded by the Reader model, through WriteTo and through Read with ANY positive buffer size, to exactly the input followed by a clean end of stream (Reader closed, whole frame consumed). The Writer, Reader models are validated on every run against the implementation over the option matrix (4 block sizes x block checksum x content checksum x size x 10 levels x concurrency 1/2/4 x legacy), inputs {0,1,13,bs-1,bs,bs+1,2bs,3bs+7}, random partitions with flushes, ReadFrom with five fragmentation patterns, and read back with both concurrency settings through Read (mixed buffer sizes) and WriteTo.",
-        level_note="Concurrency: the models are sequential; concurrent sessions are compared with the same model (their observable results are equal) and covered by C08's pipeline theorems. Legacy frames: validated by correspondence and round-trip oracles, not covered by the theorems. Trusted: as C01.",
+        level_note="Concurrency: the models are sequential; concurrent sessions are compared with the same model (their observable results are equal) and covered by C08's pipeline theorems. Legacy frames: C02_legacy_roundtrip_refuted (the round trip is FALSE for legacy frames: open finding F28, the Reader's kernel-trailer rule), C02_legacy_roundtrip (it holds, for every option list, level, raw blocks and any length, under the computable side condition legacy_unambiguous: no emitted size word equals the running total mod 2^32), C02_legacy_roundtrip_iff (the side condition is exact), C02_legacy_small_noflush / C02_legacy_noflush_below_2056MiB (sessions that satisfy it by construction), C02_legacy_incompressible_truncates (second manifestation: more than 257 full blocks with an incompressible 258th). Trusted: as C01.",
         rule="ws: option matrix x inputs x partitions (48 sessions quick), zero-checksum inputs, ReadFrom of k*blocksize, all op sequences up to length 3 over 7 ops in both modes (798), random longer sequences, sink faults at every call; rs: valid frames x read patterns x fragmentation, every prefix, bit flips at every byte, splices, dependent-block frames from an independent encoder, hostile fields, source faults, all Reader op sequences up to length 3; non-trivial = session with >= 3 ops / input > 11 bytes",
-        modelled="writer.go, reader.go, lz4stream/{frame,block}.go, state.go, options.go as Writer.v / Reader.v / FrameImpl.v", strength="full for the sequential models (modern frames)",
+        modelled="writer.go, reader.go, lz4stream/{frame,block}.go, state.go, options.go as Writer.v / Reader.v / FrameImpl.v", strength="full for the sequential models (modern frames; legacy frames under the exact side condition, refuted without it)",
     ),
     "C05": dict(
         prop_files=["PropC05.v"], components=["rs"],
@@ -115,10 +115,10 @@ PROPS = {
     ),
     "C08": dict(
         prop_files=["PropC08.v"], components=["pipe", "piper", "rpipe", "rpiper", "ws"],
-        level_text="Theorems about the labelled transition system of the concurrent Writer pipeline (producer, one worker per block, ordering goroutine, bounded queue, per-block channels, buffer ownership), for EVERY interleaving, every concurrency level, every number of blocks and every set of failing sink writes: C08_order (blocks reach the sink in submission order, exactly the prefix before the first failure), C08_ownership (no buffer is read after release or while its worker runs), C08_no_deadlock (every reachable state is final or can step), C08_terminates (explicit decreasing measure), C08_no_leak (after Close returned: ordering goroutine exited, nothing queued, no worker blocked), C08_checker_sound (the trace checker accepts every run of the model). Tie to the code: hook call sites (verif tag) at every channel operation record traces and perturb scheduling; on every run 120 perturbed, buffer-poisoned sessions (Write/Flush/Close/Reset/reuse, sink faults, concurrency 2..16) are checked by the EXTRACTED checker, compared byte for byte with the sequential output, read back by a perturbed concurrent Reader (also on a corrupted frame), checked for leftover goroutines, and repeated under the race detector.",
-        level_note="Partial by nature: the theorems are about the protocol model; the Go scheduler, memory model and sync.Pool are assumed; the trace check is inclusion of OBSERVED traces in the checker's language. The Reader pipeline has no LTS: it is covered by the harness oracles only.",
-        rule="pipe/piper: seeded sessions (conc 2,3,4,8,16; 0..6 full blocks + tail; chunkings; Flush every 1..3 writes; reuse after Close; sink fault at a random call); non-trivial = at least two blocks",
-        modelled="Blocks.initW/close, Writer.write as PipeW.v", strength="model theorems + validated traces",
+        level_text="Theorems about the labelled transition system of the concurrent Writer pipeline (producer, one worker per block, ordering goroutine, bounded queue, per-block channels, buffer ownership), for EVERY interleaving, every concurrency level, every number of blocks and every set of failing sink writes: C08_order (blocks reach the sink in submission order, exactly the prefix before the first failure), C08_ownership (no buffer is read after release or while its worker runs), C08_no_deadlock (every reachable state is final or can step), C08_terminates (explicit decreasing measure), C08_no_leak (after Close returned: ordering goroutine exited, nothing queued, no worker blocked), C08_checker_sound (the trace checker accepts every run of the model). The same for the concurrent READER pipeline (PipeR.v: reading goroutine, one worker per block, collector, consumer; every interleaving, every queue capacity, every set of undecodable blocks): C08_reader_order (the consumer receives exactly the blocks before the first undecodable one, in order, then an undecodable block's error if there is one, else the source's verdict), C08_reader_ownership, C08_reader_no_deadlock, C08_reader_terminates, C08_reader_no_leak (once the end or an error was reported: reading goroutine and collector exited, nothing queued, no worker blocked), C08_reader_checker_sound. Tie to the code: hook call sites (verif tag) at every channel operation record traces and perturb scheduling; on every run 120 perturbed, buffer-poisoned sessions (Write/Flush/Close/Reset/reuse, sink faults, concurrency 2..16) are checked by the EXTRACTED checker, compared byte for byte with the sequential output, read back by a perturbed concurrent Reader (also on a corrupted frame), checked for leftover goroutines, and repeated under the race detector; 150 hand-assembled frames (stored, compressed, empty-decoding, undecodable and bad-checksum blocks; ended, truncated or failing sources) are read by a perturbed concurrent Reader with slow and fast consumers, their traces checked by the extracted Reader checker and the outcome compared with C08_reader_order / C08_reader_no_leak, also under the race detector.",
+        level_note="Partial by nature: the theorems are about the protocol model; the Go scheduler, memory model and sync.Pool are assumed; the trace check is inclusion of OBSERVED traces in the checker's language.",
+        rule="pipe/piper: seeded sessions (conc 2,3,4,8,16; 0..6 full blocks + tail; chunkings; Flush every 1..3 writes; reuse after Close; sink fault at a random call); rpipe/rpiper: frames of 0..8 blocks from the block alphabet {stored, compressed, empty-decoding, undecodable, bad checksum} x {end mark, truncated, failing source} x consumer {WriteTo, Read 7..65536} x delays; non-trivial = at least two blocks",
+        modelled="Blocks.initW/close, Writer.write as PipeW.v; Blocks.initR and the concurrent branches of Reader.Read/WriteTo as PipeR.v", strength="model theorems + validated traces",
     ),
     "C09": dict(
         prop_files=["PropC09.v"], components=["ws", "cr"],
@@ -138,7 +138,7 @@ PROPS = {
     ),
     "C18": dict(
         prop_files=["PropC18.v"], components=["cr"],
-        level_text="Theorems C18_reads / C18_complete / C18_frame_valid: for every sequence of buffer sizes the concatenated output of the compressing-reader model is a prefix of THE frame of the source for the applied options (the same frame the Writer emits), each call returns at most len(p) bytes, makes progress whenever len(p) > 0, reports io.EOF only after the whole frame, and with enough reads delivers the whole frame; that frame satisfies the strict specification with the source as content. Validated on every run against CompressingReader over buffer-size lists from {0,1,3,6,7,8,15,100,5000,70000,300000}, inputs {0,1,50,1000,bs-1,bs,bs+1,2bs}, options, fragmenting and failing sources.",
+        level_text="Theorems C18_reads / C18_complete / C18_frame_valid: for every sequence of buffer sizes the concatenated output of the compressing-reader model is a prefix of THE frame of the source for the applied options (the same frame the Writer emits), each call returns at most len(p) bytes, makes progress whenever len(p) > 0, reports io.EOF only after the whole frame, and with enough reads delivers the whole frame; that frame satisfies the strict specification with the source as content. C18_source_fault: a source whose k-th call fails, for EVERY k: the delivered bytes are a prefix of the frame, every call returns nil / the injected error / io.EOF after the whole frame, the error is passed through by the Read during which the source failed and the source is not asked again. Validated on every run against CompressingReader over buffer-size lists from {0,1,3,6,7,8,15,100,5000,70000,300000}, inputs {0,1,50,1000,bs-1,bs,bs+1,2bs}, options, fragmenting and failing sources.",
         level_note="LegacyOption/ConcurrencyOption are not applicable to a compressing reader (model and code agree).", rule="cr", modelled="compressing_reader.go as CReader.v", strength="full",
     ),
     "C20": dict(
